@@ -21,6 +21,7 @@ type Obs struct {
 	Step int
 	Node int
 	Inc  int
+	Task string // id of the task that made the observation ("" = scheduler context)
 	Kind string // send, deliver, pay.call, pay.result, htlc.add, htlc.settle, htlc.fail, invoice.new, tx.broadcast, tx.reject, store.write, block, crash, restart, panic, cb.conf, cb.csv, op, ...
 
 	Msg   *MsgObs
@@ -111,11 +112,15 @@ type World struct {
 	NodeLogs [2][]string
 	lastSM   *swap.SwapStateMachine
 	opsPending int
+	injN       int
 }
 
 func (w *World) Observe(o *Obs) {
 	o.T = w.Sim.Now()
 	o.Step = w.Sim.Steps()
+	if t := rt.Self(); t != nil {
+		o.Task = t.ID
+	}
 	w.Obs = append(w.Obs, o)
 	w.Sim.Logf("OBS n%d %s %s", o.Node, o.Kind, o.brief())
 	for _, m := range w.Monitors {
@@ -237,6 +242,8 @@ func New(p *Plan, monitors []Monitor) (*World, error) {
 		n := newNode(w, i)
 		w.Nodes = append(w.Nodes, n)
 	}
+	// node 2: third party, never real code, controlled by the adversary
+	w.Nodes = append(w.Nodes, &Node{w: w, ID: 2, Pubkey: NodePubkey(2), Kind: "third", Flavor: "cln"})
 	w.LN.setup()
 	return w, nil
 }
